@@ -143,7 +143,12 @@ class Conc:
                 # the same place written through the far corner or the centre (the reference's
                 # right edge mid-point is at height 1, or 0 for a point)
                 rcy = 0 if wt == 0 else 1
-                sp = self.rnd.choice(["dir", "dir", "xy2", "cxy"])
+                sp = self.rnd.choice(["dir", "dir", "xy2", "cxy", "cx-y", "x2-y"])
+                if sp == "cx-y":
+                    # one axis through a reference, the other as a number
+                    return f'<rect {base} cx="#n{n["ref"]}@r {3 - wt + 1}" y="0"{size} data-v="-"/>{nl}'
+                if sp == "x2-y":
+                    return f'<rect {base} x2="#n{n["ref"]}~x2 {3 - wt + 2}" y="0"{size} data-v="-"/>{nl}'
                 if sp == "xy2":
                     return f'<rect {base} xy2="#n{n["ref"]}@r {3 - wt + 2} {2 - rcy}"{size} data-v="-"/>{nl}'
                 if sp == "cxy":
